@@ -66,11 +66,16 @@ theorem reimposeRank_getD {xs qs : List Rat} {i : Nat} (hi : i < xs.length) :
     (reimposeRank xs qs).getD i 0 = (sortQ qs).getD (rank xs i) 0 := by
   simp [reimposeRank, List.getD_eq_getElem?_getD, hi]
 
-theorem reimposeRank_order' {xs qs : List Rat} (hl : qs.length = xs.length) {i j : Nat}
+theorem reimposeRank_order_le {xs qs : List Rat} (hl : xs.length ≤ qs.length) {i j : Nat}
     (hi : i < xs.length) (hj : j < xs.length) (h : xs.getD i 0 < xs.getD j 0) :
     (reimposeRank xs qs).getD i 0 ≤ (reimposeRank xs qs).getD j 0 := by
   rw [reimposeRank_getD hi, reimposeRank_getD hj]
-  exact sortQ_mono qs (rank_le_of_lt h) (by rw [sortQ_length, hl]; exact rank_lt_length hj)
+  exact sortQ_mono qs (rank_le_of_lt h) (by rw [sortQ_length]; exact Nat.lt_of_lt_of_le (rank_lt_length hj) hl)
+
+theorem reimposeRank_order' {xs qs : List Rat} (hl : qs.length = xs.length) {i j : Nat}
+    (hi : i < xs.length) (hj : j < xs.length) (h : xs.getD i 0 < xs.getD j 0) :
+    (reimposeRank xs qs).getD i 0 ≤ (reimposeRank xs qs).getD j 0 :=
+  reimposeRank_order_le (by omega) hi hj h
 
 /-! ### the ranks are a permutation -/
 
@@ -260,13 +265,13 @@ theorem developByAtas_rel {t out : List Cell} {F : Factors} (h : developByAtas t
     exact hrel
 
 /-! moment -/
-def MomRel (f : String) (c o : Cell) : Prop :=
+def MomRel (D : List Rat → Prop) (f : String) (c o : Cell) : Prop :=
   o.coord = c.coord ∧ o.kind = c.kind ∧
-  ∃ v drawn, c.values.get? f = some v ∧ o.values = c.values.set f (generateSamples v drawn)
+  ∃ v drawn, D drawn ∧ c.values.get? f = some v ∧ o.values = c.values.set f (generateSamples v drawn)
 
 theorem momentField_rel {f : String} {draws : Nat → List Rat} :
     ∀ {cs : List Cell} {i : Nat} {out : List Cell}, momentField f draws i cs = .ok out →
-      List.Forall₂ (MomRel f) cs out := by
+      List.Forall₂ (MomRel (fun dr => ∃ j, dr = draws j) f) cs out := by
   intro cs
   induction cs with
   | nil => intro i out h; simp [momentField] at h; subst h; exact .nil
@@ -280,7 +285,7 @@ theorem momentField_rel {f : String} {draws : Nat → List Rat} :
       · cases h
       · rename_i r hr
         cases h
-        exact .cons ⟨rfl, rfl, v, draws i, hv, rfl⟩ (ih hr)
+        exact .cons ⟨rfl, rfl, v, draws i, ⟨i, rfl⟩, hv, rfl⟩ (ih hr)
 
 theorem forall₂_trans' {α} {R S T : α → α → Prop} (h : ∀ a b c, R a b → S b c → T a c) :
     ∀ {l1 l2 l3 : List α}, List.Forall₂ R l1 l2 → List.Forall₂ S l2 l3 → List.Forall₂ T l1 l3
@@ -396,8 +401,9 @@ def MomFields (fs : List String) (c o : Cell) : Prop :=
   (∀ f, f ∉ fs → o.values.get? f = c.values.get? f) ∧
   (∀ f ∈ fs, ∃ v, c.values.get? f = some v)
 
-theorem MomRel.toFields {f : String} {c o : Cell} (h : MomRel f c o) : MomFields [f] c o := by
-  obtain ⟨h1, h2, v, drawn, hv, ho⟩ := h
+theorem MomRel.toFields {D : List Rat → Prop} {f : String} {c o : Cell} (h : MomRel D f c o) :
+    MomFields [f] c o := by
+  obtain ⟨h1, h2, v, drawn, _, hv, ho⟩ := h
   refine ⟨h1, h2, ?_, ?_, ?_⟩
   · rw [ho]; exact dkeys_set_of_mem hv _
   · intro f' hf'
@@ -444,8 +450,8 @@ theorem momentLoop_fields {draws : Nat → String → List Rat} :
 theorem momentLoop_selected {draws : Nat → String → List Rat} :
     ∀ {fs : List String} {t out : List Cell}, momentLoop draws fs t = .ok out → fs.Nodup →
       kindsConsistent t = true → t.Pairwise (fun a b => Cell.le a b) →
-      List.Forall₂ (fun c o => ∀ f ∈ fs, ∃ v drawn, c.values.get? f = some v ∧
-        o.values.get? f = some (generateSamples v drawn)) t out := by
+      List.Forall₂ (fun c o => ∀ f ∈ fs, ∃ v drawn, (∃ j, drawn = draws j f) ∧
+        c.values.get? f = some v ∧ o.values.get? f = some (generateSamples v drawn)) t out := by
   intro fs
   induction fs with
   | nil =>
@@ -469,7 +475,7 @@ theorem momentLoop_selected {draws : Nat → String → List Rat} :
       have hsel := ih h hnd.2 hk' hs'
       -- combine the two facts about the remaining loop, then chain with the first step
       have hboth : List.Forall₂ (fun b o => (∀ f', f' ∉ fs → o.values.get? f' = b.values.get? f') ∧
-          ∀ f' ∈ fs, ∃ v drawn, b.values.get? f' = some v ∧
+          ∀ f' ∈ fs, ∃ v drawn, (∃ j, drawn = draws j f') ∧ b.values.get? f' = some v ∧
             o.values.get? f' = some (generateSamples v drawn)) cells out := by
         clear h hrel0 hrel hcells hk' hs'
         induction hrest with
@@ -479,16 +485,564 @@ theorem momentLoop_selected {draws : Nat → String → List Rat} :
           | cons g1 g2 => exact .cons ⟨h1.2.2.2, g1⟩ (ih2 g2)
       refine forall₂_trans' ?_ hrel0 hboth
       intro a b c h1 h2 f' hf'
-      obtain ⟨_, _, v, drawn, hv, hb⟩ := h1
+      obtain ⟨_, _, v, drawn, hD, hv, hb⟩ := h1
       rcases List.mem_cons.mp hf' with rfl | hf'
-      · refine ⟨v, drawn, hv, ?_⟩
+      · refine ⟨v, drawn, hD, hv, ?_⟩
         rw [h2.1 _ hnd.1, hb, dget_set_of_mem hv]; simp
-      · obtain ⟨v', drawn', hv', ho'⟩ := h2.2 f' hf'
-        refine ⟨v', drawn', ?_, ho'⟩
+      · obtain ⟨v', drawn', hD', hv', ho'⟩ := h2.2 f' hf'
+        refine ⟨v', drawn', hD', ?_, ho'⟩
         rw [← hv', hb, dget_set_of_mem hv]
         have : (f == f') = false := by
           simp only [beq_eq_false_iff_ne, ne_eq]
           intro e; subst e; exact hnd.1 hf'
         rw [this]; rfl
+
+
+
+theorem dmem_keys_set {α} (d : Dict α) (k k' : String) (v : α) :
+    k' ∈ (d.set k v).keys ↔ k' ∈ d.keys ∨ k' = k := by
+  unfold Dict.set
+  split
+  · rename_i hc
+    have hk : k ∈ d.keys := by rw [dcontains_eq] at hc; exact List.contains_iff_mem.mp hc
+    have : Dict.keys (d.map (fun p => if p.1 == k then (k, v) else p)) = Dict.keys d := by
+      unfold Dict.keys
+      rw [List.map_map]
+      apply List.map_congr_left
+      intro p _
+      simp only [Function.comp]
+      split <;> simp_all
+    rw [this]
+    constructor
+    · exact Or.inl
+    · rintro (h | rfl)
+      · exact h
+      · exact hk
+  · simp [Dict.keys]
+
+theorem dmem_keys_union {α} (b : Dict α) : ∀ (a : Dict α) (k : String),
+    k ∈ (Dict.union a b).keys ↔ k ∈ a.keys ∨ k ∈ b.keys := by
+  induction b with
+  | nil => intro a k; simp [Dict.union, Dict.keys]
+  | cons p b ih =>
+    intro a k
+    have : Dict.union a (p :: b) = Dict.union (a.set p.1 p.2) b := by simp [Dict.union]
+    rw [this, ih, dmem_keys_set]
+    simp only [Dict.keys, List.map_cons, List.mem_cons]
+    tauto
+
+theorem developItems_keys {c : Cell} {tbl : List (String × List Rat)} {pidx : Nat} :
+    ∀ {vals its : Dict Val}, developItems c tbl pidx vals = .ok its → ∀ f ∈ its.keys, f ∈ vals.keys := by
+  intro vals
+  induction vals with
+  | nil => intro its h; simp [developItems] at h; subst h; simp [Dict.keys]
+  | cons p vals ih =>
+    intro its h
+    obtain ⟨f, v⟩ := p
+    simp only [developItems] at h
+    split at h
+    · intro g hg
+      simp only [Dict.keys, List.map_cons, List.mem_cons]
+      exact Or.inr (ih h g hg)
+    · split at h
+      · cases h
+      · split at h
+        · cases h
+        · split at h
+          · cases h
+          · rename_i r hr
+            cases h
+            intro g hg
+            simp only [Dict.keys, List.map_cons, List.mem_cons] at hg ⊢
+            rcases hg with rfl | hg
+            · exact Or.inl rfl
+            · exact Or.inr (ih hr g hg)
+
+/-- every field name occurring in the developed cells occurs in the running values or in a source
+cell — nothing is invented -/
+theorem developLoop_keys {t : List Cell} {F : Factors} (P : String → Prop) :
+    ∀ {cs : List Cell} {vals : Dict Val} {out : List Cell}, developLoop t F vals cs = .ok out →
+      (∀ f ∈ vals.keys, P f) → (∀ c ∈ cs, ∀ f ∈ c.values.keys, P f) →
+      ∀ o ∈ out, ∀ f ∈ o.values.keys, P f := by
+  intro cs
+  induction cs with
+  | nil => intro vals out h _ _; simp [developLoop] at h; subst h; simp
+  | cons c cs ih =>
+    intro vals out h hv hc
+    simp only [developLoop] at h
+    split at h
+    · split at h
+      · cases h
+      · rename_i r hr
+        cases h
+        intro o ho
+        rcases List.mem_cons.mp ho with rfl | ho
+        · exact hc o (by simp)
+        · exact ih hr (hc c (by simp)) (fun c' hc' => hc c' (by simp [hc'])) o ho
+    · split at h
+      · cases h
+      · rename_i its hits
+        split at h
+        · cases h
+        · rename_i r hr
+          cases h
+          have hits' : ∀ f ∈ its.keys, P f := by
+            intro f hf
+            split at hits
+            · cases hits; simp [Dict.keys] at hf
+            · split at hits
+              · cases hits
+              · exact hv f (developItems_keys hits f hf)
+          have hnv : ∀ f ∈ (Dict.union c.values its).keys, P f := by
+            intro f hf
+            rcases (dmem_keys_union its c.values f).mp hf with h1 | h1
+            · exact hc c (by simp) f h1
+            · exact hits' f h1
+          intro o ho
+          rcases List.mem_cons.mp ho with rfl | ho
+          · exact hnv
+          · exact ih hr hnv (fun c' hc' => hc c' (by simp [hc'])) o ho
+
+
+
+theorem mapMExcept_ok_of_mem {α β} {f : α → Except Err β} {l : List α} {r : List β}
+    (h : mapMExcept f l = .ok r) : ∀ a ∈ l, ∃ b, f a = .ok b := by
+  induction l generalizing r with
+  | nil => simp
+  | cons a as ih =>
+    simp only [mapMExcept] at h
+    split at h
+    · cases h
+    · rename_i b hb
+      split at h
+      · cases h
+      · rename_i bs hbs
+        intro x hx
+        rcases List.mem_cons.mp hx with rfl | hx
+        · exact ⟨b, hb⟩
+        · exact ih hbs x hx
+
+theorem mapMExcept_getElem {α β} {f : α → Except Err β} {l : List α} {r : List β}
+    (h : mapMExcept f l = .ok r) (i : Nat) (hi : i < l.length) :
+    f l[i] = .ok (r[i]'(by rw [mapMExcept_length h]; exact hi)) := by
+  induction l generalizing r i with
+  | nil => simp at hi
+  | cons a as ih =>
+    simp only [mapMExcept] at h
+    split at h
+    · cases h
+    · rename_i b hb
+      split at h
+      · cases h
+      · rename_i bs hbs
+        cases h
+        cases i with
+        | zero => simpa using hb
+        | succ i => simpa using ih hbs i (by simpa using hi)
+
+theorem meEnsemble_length {xs : List Val} {qs : List Rat} {vs : List Val}
+    (h : meEnsemble xs qs = .ok vs) : vs.length = xs.length := by
+  unfold meEnsemble at h
+  split at h
+  · cases h; rfl
+  · cases h; rfl
+  · split at h
+    · cases h
+    · rename_i nums hnums
+      split at h
+      · cases h; rfl
+      · cases h
+        simp [Resample.reimposeRank_length, mapMExcept_length hnums]
+
+def SameCell (c o : Cell) : Prop := o.coord = c.coord ∧ o.kind = c.kind ∧ o.values.keys = c.values.keys
+
+theorem setField_rel {f : String} : ∀ {s s' : List Cell} {vs : List Val},
+    List.Forall₂ SameCell s s' → vs.length = s'.length → (∀ c ∈ s, ∃ v, c.values.get? f = some v) →
+    List.Forall₂ SameCell s (setField s' f vs) := by
+  intro s s' vs h
+  induction h generalizing vs with
+  | nil => intro _ _; simp [setField]
+  | cons hh _ ih =>
+    rename_i c o s1 s1' _
+    intro hl hget
+    cases vs with
+    | nil => simp at hl
+    | cons v vs =>
+      simp only [setField, List.zip_cons_cons, List.map_cons]
+      refine .cons ?_ (ih (by simpa using hl) (fun c' hc' => hget c' (by simp [hc'])))
+      obtain ⟨x, hx⟩ := hget c (by simp)
+      have ho : ∃ y, o.values.get? f = some y := by
+        have hmem : f ∈ c.values.keys := by
+          by_contra hn; rw [dget_eq_none_iff.mpr hn] at hx; cases hx
+        rw [← hh.2.2] at hmem
+        cases hg : o.values.get? f with
+        | none => exact absurd hmem (dget_eq_none_iff.mp hg)
+        | some y => exact ⟨y, rfl⟩
+      obtain ⟨y, hy⟩ := ho
+      exact ⟨hh.1, hh.2.1, (dkeys_set_of_mem hy v).trans hh.2.2⟩
+
+theorem meCells_rel {s : List Cell} {qs : String → List Rat} :
+    ∀ {fs : List String} {cells : List Cell}, meCells s fs qs = .ok cells →
+      List.Forall₂ SameCell s cells := by
+  intro fs
+  induction fs with
+  | nil => intro cells h; simp [meCells] at h; subst h; exact forall₂_refl' (fun _ => ⟨rfl, rfl, rfl⟩) s
+  | cons f fs ih =>
+    intro cells h
+    simp only [meCells] at h
+    split at h
+    · cases h
+    · rename_i xs hxs
+      split at h
+      · cases h
+      · rename_i vs hvs
+        split at h
+        · cases h
+        · rename_i s' hs'
+          cases h
+          have hrel := ih hs'
+          have hl : vs.length = s'.length := by
+            rw [meEnsemble_length hvs, mapMExcept_length hxs]
+            exact (Blend.forall₂_length' hrel).symm
+          refine setField_rel hrel hl ?_
+          intro c hc
+          obtain ⟨b, hb⟩ := mapMExcept_ok_of_mem hxs c hc
+          cases hg : c.values.get? f with
+          | none => simp [hg] at hb
+          | some v => exact ⟨v, rfl⟩
+
+
+/-! ### bootstrap: tag, one replicate -/
+
+
+def tagCell (i : Nat) (c : Cell) : Cell :=
+  { c with md := c.md.edit (.detail "bootstrap" (.num (i : Rat))) }
+
+theorem mapM_mk_eq {f : Cell → Cell} : ∀ {t out : List Cell},
+    t.mapM (fun c => (f c).mk?) = .ok out → out = t.map f := by
+  intro t
+  induction t with
+  | nil => intro out h; simp [List.mapM_nil, pure, Except.pure] at h; subst h; rfl
+  | cons a rest ih =>
+    intro out h
+    rw [List.mapM_cons] at h
+    simp only [bind, Except.bind, Cell.mk?] at h
+    split at h
+    · cases h
+    · rename_i v hv
+      split at hv
+      · cases hv
+        split at h
+        · cases h
+        · rename_i vs hvs
+          simp only [pure, Except.pure] at h
+          cases h
+          simp [ih hvs]
+      · cases hv
+
+theorem ofCells_perm' {l t : List Cell} (h : Triangle.ofCells l = .ok t) : t.Perm l := by
+  unfold Triangle.ofCells at h
+  split at h
+  · cases h; exact List.mergeSort_perm l _
+  · cases h
+
+theorem tagBootstrap_perm {t out : List Cell} {i : Nat} (h : tagBootstrap t i = .ok out) :
+    out.Perm (t.map (tagCell i)) := by
+  simp only [tagBootstrap, Triangle.deriveMetadata, bind, Except.bind] at h
+  split at h
+  · cases h
+  · rename_i v hv
+    have := mapM_mk_eq (f := tagCell i) hv
+    subst this
+    exact ofCells_perm' h
+
+/-- what one replicate may do to a cell of slice `s` BEFORE the bootstrap tag -/
+def PreRel (s : List Cell) (c o : Cell) : Prop :=
+  o.coord = c.coord ∧ o.kind = c.kind ∧ (∀ f ∈ c.values.keys, f ∈ o.values.keys) ∧
+  (∀ f ∈ o.values.keys, ∃ c' ∈ s, f ∈ c'.values.keys)
+
+theorem developByAtas_loop {t out : List Cell} {F : Factors} (h : developByAtas t F = .ok out)
+    (hk : kindsConsistent t = true) (hs : t.Pairwise (fun a b => Cell.le a b)) :
+    developLoop t F [] t = .ok out := by
+  unfold developByAtas at h
+  split at h
+  · cases h
+  · rename_i cells hcells
+    have hrel := developLoop_rel hcells
+    rw [ofCells_same_coords (forall₂_imp' (fun _ _ h => ⟨h.1, h.2.1⟩) hrel) hk hs] at h
+    cases h
+    exact hcells
+
+theorem forall₂_and_mem {α β} {R : α → β → Prop} {Q : β → Prop} : ∀ {l : List α} {l' : List β},
+    List.Forall₂ R l l' → (∀ o ∈ l', Q o) → List.Forall₂ (fun a b => R a b ∧ Q b) l l'
+  | _, _, .nil, _ => .nil
+  | _, _, .cons h t, hq => .cons ⟨h, hq _ (by simp)⟩ (forall₂_and_mem t (fun o ho => hq o (by simp [ho])))
+
+theorem replicate_pre {s rep : List Cell} {fields : List String} {p : RepParam} {i : Nat}
+    (h : replicate s fields p i = .ok rep)
+    (hk : kindsConsistent s = true) (hs : s.Pairwise (fun a b => Cell.le a b)) :
+    ∃ l, rep.Perm (l.map (tagCell i)) ∧ List.Forall₂ (PreRel s) s l := by
+  unfold replicate at h
+  split at h
+  · split at h
+    · cases h
+    · rename_i d hd
+      refine ⟨d, tagBootstrap_perm h, ?_⟩
+      have hrel := developByAtas_rel hd hk hs
+      have hkeys := developLoop_keys (fun f => ∃ c' ∈ s, f ∈ c'.values.keys)
+        (developByAtas_loop hd hk hs) (by simp [Dict.keys]) (fun c hc f hf => ⟨c, hc, hf⟩)
+      refine forall₂_imp' ?_ (forall₂_and_mem hrel hkeys)
+      rintro c o ⟨⟨h1, h2, _, its, hits⟩, h4⟩
+      refine ⟨h1, h2, ?_, h4⟩
+      intro f hf
+      rw [hits]
+      exact (dmem_keys_union its c.values f).mpr (Or.inl hf)
+  · split at h
+    · cases h
+    · rename_i cells hcells
+      have hrel := meCells_rel hcells
+      split at h
+      · cases h
+      · rename_i t' ht'
+        rw [ofCells_same_coords (forall₂_imp' (fun _ _ h => ⟨h.1, h.2.1⟩) hrel) hk hs] at ht'
+        cases ht'
+        refine ⟨cells, tagBootstrap_perm h, ?_⟩
+        have hmem : ∀ {l l' : List Cell}, List.Forall₂ SameCell l l' → (∀ c ∈ l, c ∈ s) →
+            List.Forall₂ (PreRel s) l l' := by
+          intro l l' hf
+          induction hf with
+          | nil => intro _; exact .nil
+          | cons hh _ ih =>
+            rename_i c o _ _ _
+            intro hsub
+            refine .cons ⟨hh.1, hh.2.1, fun f hf => hh.2.2 ▸ hf, fun f hf => ⟨c, hsub c (by simp), hh.2.2 ▸ hf⟩⟩
+              (ih (fun c' hc' => hsub c' (by simp [hc'])))
+        exact hmem hrel (fun c hc => hc)
+
+/-! ### bootstrap: sums and slices -/
+
+
+theorem sumFrom_perm : ∀ {bs : List (List Cell)} {acc r : List Cell}, sumFrom acc bs = .ok r →
+    r.Perm (acc ++ bs.flatten) := by
+  intro bs
+  induction bs with
+  | nil => intro acc r h; simp [sumFrom] at h; subst h; simp
+  | cons b bs ih =>
+    intro acc r h
+    simp only [sumFrom] at h
+    split at h
+    · cases h
+    · rename_i a ha
+      have h1 := ih h
+      have h2 : a.Perm (acc ++ b) := ofCells_perm' ha
+      rw [List.flatten_cons, ← List.append_assoc]
+      exact h1.trans (h2.append_right _)
+
+theorem sumTriangles_perm {l : List (List Cell)} {r : List Cell} (h : sumTriangles l = .ok r) :
+    r.Perm l.flatten := by
+  cases l with
+  | nil => simp [sumTriangles] at h; subst h; simp
+  | cons a rest => simpa [sumTriangles] using sumFrom_perm h
+
+/-! metasOf -/
+theorem metas_foldl (cells : List Cell) : ∀ (acc : List Metadata), acc.Nodup →
+    (cells.foldl (fun acc c => if acc.contains c.md then acc else acc ++ [c.md]) acc).Nodup ∧
+    ∀ m, m ∈ cells.foldl (fun acc c => if acc.contains c.md then acc else acc ++ [c.md]) acc ↔
+      m ∈ acc ∨ ∃ c ∈ cells, c.md = m := by
+  induction cells with
+  | nil => intro acc h; simp [h]
+  | cons c cells ih =>
+    intro acc hnd
+    rw [List.foldl_cons]
+    by_cases hc : acc.contains c.md = true
+    · rw [if_pos hc]
+      obtain ⟨h1, h2⟩ := ih acc hnd
+      refine ⟨h1, fun m => ?_⟩
+      rw [h2]
+      have : c.md ∈ acc := List.contains_iff_mem.mp hc
+      constructor
+      · rintro (h | ⟨c', hc', rfl⟩)
+        · exact Or.inl h
+        · exact Or.inr ⟨c', by simp [hc'], rfl⟩
+      · rintro (h | ⟨c', hc', rfl⟩)
+        · exact Or.inl h
+        · rcases List.mem_cons.mp hc' with rfl | hc'
+          · exact Or.inl this
+          · exact Or.inr ⟨c', hc', rfl⟩
+    · rw [if_neg hc]
+      have hnot : c.md ∉ acc := fun h => hc (List.contains_iff_mem.mpr h)
+      have hnd' : (acc ++ [c.md]).Nodup := by
+        rw [List.nodup_append]
+        refine ⟨hnd, by simp, ?_⟩
+        intro a ha b hb
+        simp only [List.mem_singleton] at hb
+        subst hb
+        intro e; subst e; exact hnot ha
+      obtain ⟨h1, h2⟩ := ih _ hnd'
+      refine ⟨h1, fun m => ?_⟩
+      rw [h2]
+      constructor
+      · rintro (h | ⟨c', hc', rfl⟩)
+        · rcases List.mem_append.mp h with h | h
+          · exact Or.inl h
+          · rw [List.mem_singleton] at h; subst h; exact Or.inr ⟨c, by simp, rfl⟩
+        · exact Or.inr ⟨c', by simp [hc'], rfl⟩
+      · rintro (h | ⟨c', hc', rfl⟩)
+        · exact Or.inl (List.mem_append.mpr (Or.inl h))
+        · rcases List.mem_cons.mp hc' with rfl | hc'
+          · exact Or.inl (List.mem_append.mpr (Or.inr (by simp)))
+          · exact Or.inr ⟨c', hc', rfl⟩
+
+theorem metasOf_nodup (t : List Cell) : (metasOf t).Nodup := (metas_foldl t [] List.nodup_nil).1
+
+theorem mem_metasOf {t : List Cell} {c : Cell} (h : c ∈ t) : c.md ∈ metasOf t :=
+  ((metas_foldl t [] List.nodup_nil).2 c.md).mpr (Or.inr ⟨c, h, rfl⟩)
+
+theorem partition_perm : ∀ (ms : List Metadata) (t : List Cell), ms.Nodup → (∀ c ∈ t, c.md ∈ ms) →
+    (ms.flatMap fun m => t.filter (·.md == m)).Perm t := by
+  intro ms
+  induction ms with
+  | nil =>
+    intro t _ h
+    cases t with
+    | nil => simp
+    | cons c t => exact absurd (h c (by simp)) (by simp)
+  | cons m ms ih =>
+    intro t hnd hcov
+    rw [List.nodup_cons] at hnd
+    rw [List.flatMap_cons]
+    have hrest : (ms.flatMap fun m' => t.filter (·.md == m')) =
+        (ms.flatMap fun m' => (t.filter (fun c => !(c.md == m))).filter (·.md == m')) := by
+      apply List.flatMap_congr
+      intro m' hm'
+      rw [List.filter_filter]
+      apply List.filter_congr
+      intro c _
+      by_cases h : c.md = m'
+      · have : c.md ≠ m := fun e => hnd.1 (e ▸ h ▸ hm')
+        simp [h]
+        subst h; simpa using this
+      · simp [h]
+    rw [hrest]
+    have ih' := ih (t.filter (fun c => !(c.md == m))) hnd.2 (by
+      intro c hc
+      rw [List.mem_filter] at hc
+      have := hcov c hc.1
+      rcases List.mem_cons.mp this with h | h
+      · simp [h] at hc
+      · exact h)
+    exact (List.Perm.append_left _ ih').trans (List.filter_append_perm _ t)
+
+
+
+theorem mapMExcept_forall₂ {α β} {f : α → Except Err β} : ∀ {l : List α} {r : List β},
+    mapMExcept f l = .ok r → List.Forall₂ (fun a b => f a = .ok b) l r := by
+  intro l
+  induction l with
+  | nil => intro r h; simp [mapMExcept] at h; subst h; exact .nil
+  | cons a as ih =>
+    intro r h
+    simp only [mapMExcept] at h
+    split at h
+    · cases h
+    · rename_i b hb
+      split at h
+      · cases h
+      · rename_i bs hbs
+        cases h
+        exact .cons hb (ih hbs)
+
+theorem forall₂_map_left' {α β γ} {R : β → γ → Prop} {f : α → β} :
+    ∀ {l : List α} {l' : List γ}, List.Forall₂ (fun a b => R (f a) b) l l' → List.Forall₂ R (l.map f) l'
+  | _, _, .nil => .nil
+  | _, _, .cons h t => .cons h (forall₂_map_left' t)
+
+theorem forall₂_map_right' {α β γ} {R : α → γ → Prop} {f : β → γ} :
+    ∀ {l : List α} {l' : List β}, List.Forall₂ (fun a b => R a (f b)) l l' → List.Forall₂ R l (l'.map f)
+  | _, _, .nil => .nil
+  | _, _, .cons h t => .cons h (forall₂_map_right' t)
+
+theorem forall₂_append' {α β} {R : α → β → Prop} : ∀ {l1 : List α} {l1' : List β} {l2 l2'},
+    List.Forall₂ R l1 l1' → List.Forall₂ R l2 l2' → List.Forall₂ R (l1 ++ l2) (l1' ++ l2')
+  | _, _, _, _, .nil, h => h
+  | _, _, _, _, .cons h t, h2 => .cons h (forall₂_append' t h2)
+
+/-- slice-wise replicates assemble into a whole-triangle replicate -/
+theorem assemble {T : List Cell} {i : Nat} : ∀ {ss rs : List (List Cell)},
+    List.Forall₂ (fun s r => ∃ l, r.Perm (l.map (tagCell i)) ∧ List.Forall₂ (PreRel s) s l) ss rs →
+    (∀ s ∈ ss, ∀ c ∈ s, c ∈ T) →
+    ∃ l, rs.flatten.Perm (l.map (tagCell i)) ∧ List.Forall₂ (PreRel T) ss.flatten l := by
+  intro ss rs h
+  induction h with
+  | nil => intro _; exact ⟨[], by simp, .nil⟩
+  | cons hh _ ih =>
+    rename_i s r ss' rs' _
+    intro hsub
+    obtain ⟨l1, hp1, hf1⟩ := hh
+    obtain ⟨l2, hp2, hf2⟩ := ih (fun s' hs' => hsub s' (by simp [hs']))
+    refine ⟨l1 ++ l2, ?_, ?_⟩
+    · rw [List.flatten_cons, List.map_append]
+      exact hp1.append hp2
+    · rw [List.flatten_cons]
+      refine forall₂_append' (forall₂_imp' ?_ hf1) hf2
+      rintro c o ⟨h1, h2, h3, h4⟩
+      refine ⟨h1, h2, h3, fun f hf => ?_⟩
+      obtain ⟨c', hc', hfc'⟩ := h4 f hf
+      exact ⟨c', hsub s (by simp) c' hc', hfc'⟩
+
+
+
+theorem kindsConsistent_of_subset {l l' : List Cell} (h : kindsConsistent l = true)
+    (hsub : ∀ c ∈ l', c ∈ l) : kindsConsistent l' = true := by
+  unfold kindsConsistent at *
+  simp only [Bool.or_eq_true, List.all_eq_true] at *
+  rcases h with (h | h) | h
+  · exact Or.inl (Or.inl fun c hc => h c (hsub c hc))
+  · exact Or.inl (Or.inr fun c hc => h c (hsub c hc))
+  · exact Or.inr fun c hc => h c (hsub c hc)
+
+theorem slice_props {t : List Cell} (hk : kindsConsistent t = true) :
+    ∀ s ∈ (Triangle.slices t).map (·.2),
+      kindsConsistent s = true ∧ s.Pairwise (fun a b => Cell.le a b) ∧ ∀ c ∈ s, c ∈ t := by
+  intro s hs
+  simp only [Triangle.slices, List.map_map, List.mem_map, Function.comp] at hs
+  obtain ⟨m, _, rfl⟩ := hs
+  have hsub : ∀ c ∈ (t.filter (·.md == m)).mergeSort Cell.le, c ∈ t := by
+    intro c hc
+    exact (List.mem_filter.mp ((List.mergeSort_perm _ _).mem_iff.mp hc)).1
+  exact ⟨kindsConsistent_of_subset hk hsub, sorted_mergeSort (cmp := Cell.cmp) _, hsub⟩
+
+theorem slices_flatten_perm (t : List Cell) : (((Triangle.slices t).map (·.2)).flatten).Perm t := by
+  have h1 : ((Triangle.slices t).map (·.2)).flatten =
+      (metasOf t).flatMap fun m => (t.filter (·.md == m)).mergeSort Cell.le := by
+    simp [Triangle.slices, List.flatMap, List.map_map, Function.comp_def]
+  rw [h1]
+  refine List.Perm.trans ?_ (partition_perm (metasOf t) t (metasOf_nodup t) (fun c hc => mem_metasOf hc))
+  clear h1
+  generalize metasOf t = ms
+  induction ms with
+  | nil => simp
+  | cons m ms ih =>
+    rw [List.flatMap_cons, List.flatMap_cons]
+    exact (List.mergeSort_perm _ _).append ih
+
+
+theorem forall₂_mem_left {α β} {R : α → β → Prop} : ∀ {l : List α} {l' : List β},
+    List.Forall₂ R l l' → ∀ a ∈ l, ∃ b ∈ l', R a b
+  | _, _, .nil, a, ha => by simp at ha
+  | _, _, .cons h t, a, ha => by
+    rcases List.mem_cons.mp ha with rfl | ha
+    · exact ⟨_, by simp, h⟩
+    · obtain ⟨b, hb, hr⟩ := forall₂_mem_left t a ha
+      exact ⟨b, by simp [hb], hr⟩
+
+theorem forall₂_mem_right {α β} {R : α → β → Prop} : ∀ {l : List α} {l' : List β},
+    List.Forall₂ R l l' → ∀ b ∈ l', ∃ a ∈ l, R a b
+  | _, _, .nil, b, hb => by simp at hb
+  | _, _, .cons h t, b, hb => by
+    rcases List.mem_cons.mp hb with rfl | hb
+    · exact ⟨_, by simp, h⟩
+    · obtain ⟨a, ha, hr⟩ := forall₂_mem_right t b hb
+      exact ⟨a, by simp [ha], hr⟩
 
 end Bermuda.Resample
